@@ -646,6 +646,14 @@ func (c *Canonicalizer) renamerFunc() loop.Renamer {
 			// loops are labelled by the canonical name of their header block
 			return c.blockMap[ref.Loop.Header]
 		}
+		if ref, ok := v.(loop.ConstRef); ok {
+			// literals inside symbolic expressions follow the literal policy like any other operand
+			k := ssa.NewConst(constant.MakeFromLiteral(ref.Value.String(), token.INT, 0), types.Typ[types.Int])
+			if c.Policy.ShouldAbstract(k, nil) {
+				return "<int_literal>"
+			}
+			return ""
+		}
 		if s, ok := memo[v]; ok {
 			return s
 		}
